@@ -34,6 +34,7 @@ type step struct {
 type scenario struct {
 	ID    string `json:"id"`
 	Steps []step `json:"steps"`
+	Eager string `json:"eager,omitempty"` // "" | "stream" | "external": direct binding with acks handled inside Send
 }
 
 const quietFor = 300 * time.Millisecond
@@ -132,6 +133,9 @@ func payload(size int) []byte {
 }
 
 func run(sc *scenario, scratch string) ([]map[string]any, error) {
+	if sc.Eager != "" {
+		return runEager(sc, scratch)
+	}
 	ctx, cancel := context.WithTimeout(context.Background(), 120*time.Second)
 	defer cancel()
 	w, err := world.New(ctx, scratch)
